@@ -13,7 +13,7 @@ import searchmc
 import vlib
 from vlib import ToolError, log
 
-TIERS = {"quick": dict(shards=16, mate1=3, defend=3, won=5, lost=3), "thorough": dict(shards=16, mate1=50, defend=50, won=80, lost=40)}
+TIERS = {"quick": dict(shards=16, mate1=3, defend=3, won=5, lost=3, special=1), "thorough": dict(shards=16, mate1=50, defend=50, won=80, lost=40, special=8)}
 
 
 def _validate(exe, work, args, tag, R):
@@ -55,7 +55,11 @@ def run(prop, tier, seed):
             b = _validate(exe, work, ["search-mate", "--seed", seed * 59 + i, "--mate1", 10 ** 6, "--defend", 0, "--won", T["won"], "--out", o2], "w%d" % i, R)
             o3 = os.path.join(work, "lost_%d.ndjson" % i)
             c = _validate(exe, work, ["search-mate", "--seed", seed * 61 + i, "--mate1", 0, "--defend", 10 ** 6, "--lost", T["lost"], "--out", o3], "l%d" % i, R)
-            return out, tuple(x + y + z for x, y, z in zip(a, b, c))
+            # special-move mates: the mate in one (or the mating reply to avoid) is a castling move, an en-passant capture, a
+            # promotion or a discovered / double check - per shard `special` candidates of each of the seven kinds
+            o4 = os.path.join(work, "special_%d.ndjson" % i)
+            d = _validate(exe, work, ["search-mate", "--seed", seed * 67 + i, "--mate1", 0, "--defend", 10 ** 6, "--special", T["special"], "--out", o4], "s%d" % i, R)
+            return out, tuple(x + y + z + u for x, y, z, u in zip(a, b, c, d))
         events = conf = skip = 0
         for out, (m, c, s) in vlib.parallel(shard, range(T["shards"])):
             events += m
